@@ -115,9 +115,15 @@ def draw_response(rng, custom_msg=False, allow_custom=True, max_msgs=3):
         msgs.append(draw_submsg(rng, custom_msg=custom_msg, allow_custom=allow_custom))
     attrs = [{"key": rng.choice(["k", "action", "_x", "a b"]) + str(i), "value": rng.choice(T.HOSTILE_STRINGS)}
              for i in range(rng.choice([0, 1, 2, 3]))]
+    if attrs and rng.random() < 0.3:
+        # the same attribute several times in a row (one per recipient, say): a response is a list, not a set
+        j = rng.randrange(len(attrs))
+        attrs[j:j + 1] = [dict(attrs[j]) for _ in range(rng.choice([2, 3]))]
     events = [{"type": rng.choice(["ev", "transfer", "x"]) + str(i),
                "attributes": [{"key": "ek" + str(j), "value": str(rng.randrange(100))} for j in range(rng.choice([0, 1, 2]))]}
               for i in range(rng.choice([0, 1, 2]))]
+    if events and rng.random() < 0.2:
+        events.append(json.loads(json.dumps(events[-1])))
     data = None if rng.random() < 0.4 else base64.b64encode(bytes(rng.randrange(256) for _ in range(rng.choice([0, 1, 5, 20])))).decode()
     return {"messages": msgs, "attributes": attrs, "events": events, "data": data}
 
